@@ -308,10 +308,9 @@ void small_free_memory_list::deallocate(void* mem) noexcept
     auto info =
         allocator_info(FOONATHAN_MEMORY_LOG_PREFIX "::detail::small_free_memory_list", this);
 
-    auto node = static_cast<unsigned char*>(detail::debug_fill_free(mem, node_size_, 0));
+    auto node = static_cast<unsigned char*>(mem);
 
-    auto chunk     = find_chunk_impl(node);
-    dealloc_chunk_ = chunk;
+    auto chunk = find_chunk_impl(node);
     // memory was never allocated from list
     detail::debug_check_pointer([&] { return chunk != nullptr; }, info, mem);
 
@@ -320,6 +319,10 @@ void small_free_memory_list::deallocate(void* mem) noexcept
     debug_check_pointer([&] { return offset % node_size_ == 0u; }, info, mem);
     // double-free
     debug_check_double_dealloc([&] { return !chunk->contains(node, node_size_); }, info, mem);
+
+    // only a pointer that passed the checks changes anything
+    dealloc_chunk_ = chunk;
+    detail::debug_fill_free(mem, node_size_, 0);
 
     auto index = offset / node_size_;
     FOONATHAN_MEMORY_ASSERT(index < chunk->no_nodes);
